@@ -289,6 +289,17 @@ def metadata_xml(spec):
                 if strip == "all" or kd.get("use") == strip:
                     kd.attrib.pop("use", None)
             xml = ET.tostring(root, encoding="unicode")
+        only = spec.get("md_only_roles")
+        if only:
+            # the entity publishes only some of its roles (e.g. a stand-alone authentication authority: an
+            # AuthnAuthorityDescriptor with its signing key and nothing else)
+            import xml.etree.ElementTree as ET
+            root = ET.fromstring(xml.encode("utf-8"))
+            for ch in list(root):
+                loc = ch.tag.rsplit("}", 1)[-1]
+                if loc.endswith("Descriptor") and loc not in only:
+                    root.remove(ch)
+            xml = ET.tostring(root, encoding="unicode")
         methods = spec.get("md_enc_methods")
         if methods:
             # the entity's metadata as other products publish it: the encryption KeyDescriptors name the
